@@ -792,6 +792,33 @@ fn run_scenario(kit: &Kit, sc: &Scenario, work: &str, exe: &Path, gen_path: &str
 	};
 	let ref_files = mmr_files(&format!("{}{}", refdir, sc.sub));
 	let real_steps = labels.len();
+	// a node that was stopped after its last completed input and started again stands on that input
+	// (nothing was interrupted yet): "head after restart = last committed block"
+	{
+		let last_pre = sc.pre2.last().or(sc.pre.last());
+		let want_old = match last_pre {
+			Some(i) => format!("b{}", i),
+			None => "b0".to_string(),
+		};
+		if old.head != want_old {
+			out.push(format!(
+				"#ORACLE-FAIL C09 restart-lost-committed-head scenario={} :: a node stopped after its last completed block {} restarts on {} (header head {})",
+				sc.name, want_old, old.head, old.hhead
+			));
+		}
+		// the uninterrupted input ends where the chain rule says: a heavier block becomes the head
+		if sc.kind == "block" || sc.kind == "orphans" {
+			if let (Some(last), Some(o)) = (sc.input.last(), old.head.strip_prefix('b').and_then(|x| x.parse::<usize>().ok())) {
+				let want_new = if kit.blks[*last].work > kit.blks[o].work { format!("b{}", last) } else { old.head.clone() };
+				if new_.head != want_new {
+					out.push(format!(
+						"#ORACLE-FAIL C09 uninterrupted-input-wrong-head scenario={} :: input {:?} on {} ends on {} (expected {}) result={}",
+						sc.name, sc.input, old.head, new_.head, want_new, res
+					));
+				}
+			}
+		}
+	}
 	// state sync: `txhashset_replace` has real crash points after the removal of the old txhashset
 	// directory and after the rename of the sandbox; the state of a removal under way (directory
 	// half removed) is produced here by hand from the state of a process killed right after the
@@ -858,18 +885,34 @@ fn run_scenario(kit: &Kit, sc: &Scenario, work: &str, exe: &Path, gen_path: &str
 			.unwrap_or(-1)
 	};
 	let mut seen_classes: std::collections::HashSet<String> = std::collections::HashSet::new();
+	// compaction: the crash points between the end of the OUTPUT backend's compaction (its prune list
+	// renamed into place) and the first removal of the RANGE-PROOF backend's: each backend is
+	// self-consistent there, the node must reopen on its head; always enumerated
+	let gap: (usize, usize) = if sc.kind == "compact" {
+		let a = labels.iter().position(|l| l.starts_with("tmpfile:after-rename[output/pmmr_prun.bin]")).map(|i| i + 1);
+		let b = labels.iter().position(|l| l.starts_with("aof.replace:before-remove[rangeproof/pmmr_hash.bin]")).map(|i| i + 1);
+		match (a, b) {
+			(Some(a), Some(b)) if a <= b => (a, b),
+			_ => (1, 0),
+		}
+	} else {
+		(1, 0)
+	};
+	let mut gap_points = 0u64;
+	let mut gap_failing = 0u64;
 	// ---- every crash point ----
 	for n in 1..=labels.len() {
+		let in_gap = gap.0 <= n && n <= gap.1;
 		// quick tier: a crash point whose durable state is that of the previous point (before a
 		// truncate / append / commit, after an fsync: nothing was written in between) is taken one
 		// time in four (seed-dependent); thorough tier: every point
-		if !thorough && !state_distinct(&labels[n - 1]) && (n as u64 + seed) % 4 != 0 {
+		if !thorough && !in_gap && !state_distinct(&labels[n - 1]) && (n as u64 + seed) % 4 != 0 {
 			tot.skipped += 1;
 			continue;
 		}
 		// quick tier, scenarios that repeat the step list of another scenario from a different base
 		// state (orphan chain, block after its header): every second of the remaining points
-		if !thorough && sc.half && (n as u64 + seed) % 2 != 0 {
+		if !thorough && !in_gap && sc.half && (n as u64 + seed) % 2 != 0 {
 			tot.skipped += 1;
 			continue;
 		}
@@ -886,6 +929,12 @@ fn run_scenario(kit: &Kit, sc: &Scenario, work: &str, exe: &Path, gen_path: &str
 		}
 		let ev = evaluate(&cx, &dir);
 		out.push(format!("{} => {}", lhs, ev.verdict));
+		if in_gap {
+			gap_points += 1;
+			if !ev.good {
+				gap_failing += 1;
+			}
+		}
 		if !ev.good {
 			tot.failing += 1;
 			out.push(format!(
@@ -994,6 +1043,15 @@ fn run_scenario(kit: &Kit, sc: &Scenario, work: &str, exe: &Path, gen_path: &str
 	}
 	let _ = std::fs::remove_dir_all(&base);
 	let _ = std::fs::remove_dir_all(&refdir);
+	if sc.kind == "compact" {
+		out.push(format!(
+			"#STAT scenario={} gap between the output backend's compaction and the range-proof backend's: steps {}..{} enumerated={} failing={}",
+			sc.name, gap.0, gap.1, gap_points, gap_failing
+		));
+		if gap.1 < gap.0 || gap_points != (gap.1 - gap.0 + 1) as u64 {
+			out.push(format!("#ORACLE-FAIL C09 harness: compaction gap not covered in scenario {} (labels {}..{}, enumerated {})", sc.name, gap.0, gap.1, gap_points));
+		}
+	}
 	out.push(format!(
 		"#STAT scenario={} kind={} steps={} enumerated={} skipped_same_state={} failing={} recovery_classes={} second_crash_points={} second_failing={} second_differs={}",
 		sc.name, sc.kind, labels.len(), tot.points, tot.skipped, tot.failing, tot.second_classes, tot.second_points, tot.second_failing, tot.second_differs
@@ -1034,10 +1092,30 @@ fn main() {
 	let mut tip = 0usize;
 	let mut trunk = vec![0usize];
 	let mut spendable: Vec<(usize, u64)> = vec![(0, 0)]; // (out id, created height)
+	let mut balanced_blocks = 0u64;
 	for h in 1..=n_trunk as u64 {
 		// spend the oldest mature coinbase / plain output in most blocks
 		let mut specs = vec![];
-		if h >= 4 && (h % 3 != 0 || h + 3 >= n_trunk as u64) {
+		// the last two trunk blocks are BALANCED: one 2-in / 1-out transaction + the coinbase, so the
+		// block spends exactly as many outputs as it creates (the leaf set changes, its cardinality
+		// does not). trunk[n] is the interrupted input of plain-extension / block-after-header /
+		// orphan-chain; trunk[n-1] is the last completed block before them (and the fork point's child in
+		// the fork / reorg scenarios), so a leaf set that was not rewritten by a balanced block is on
+		// disk when the next input is killed.
+		if long && h + 1 >= n_trunk as u64 {
+			let mut picked: Vec<usize> = vec![];
+			while picked.len() < 2 {
+				match spendable.iter().position(|(o, c)| !kit.outs[*o].coinbase || h >= *c + 3) {
+					Some(pos) => picked.push(spendable.remove(pos).0),
+					None => break,
+				}
+			}
+			if picked.len() == 2 {
+				let v = kit.outs[picked[0]].value + kit.outs[picked[1]].value;
+				specs.push(TxSpec { inputs: picked.clone(), outputs: vec![(v - 1, None)], kernel: KSpec::Plain(1) });
+				balanced_blocks += 1;
+			}
+		} else if h >= 4 && (h % 3 != 0 || h + 3 >= n_trunk as u64) {
 			if let Some(pos) = spendable.iter().position(|(o, c)| !kit.outs[*o].coinbase || h >= *c + 3) {
 				let (o, _) = spendable.remove(pos);
 				let v = kit.outs[o].value;
@@ -1329,6 +1407,7 @@ fn main() {
 		scenarios.retain(|s| only.iter().any(|o| o == s.name));
 	}
 
+	out.raw(&format!("#STAT balanced blocks (spent = created) at the trunk's tip: {}", balanced_blocks));
 	out.raw("crash reset");
 	for r in &kit.blks {
 		out.raw(&kit.blk_line(r.id).replacen("chain blk", "crash blk", 1));
